@@ -72,7 +72,7 @@ def run_bounded(prop, tier, seed, only=None):
 def replay(rp):
     for bc in BOUNDED:
         if bc.name == rp["bounded_check"]:
-            b = B("quick", 0)
+            b = B(rp.get("tier", "quick"), rp.get("seed", 0))       # same tier and seed as the run that reported the failure
             bc.fn(b)
             if b.failures:
                 print(f"bounded check {bc.name} fails: {b.failures[0]}")
